@@ -20,6 +20,7 @@ Record case := mkCase {
   c_heights : nat;                    (* heights 0 .. c_heights-1 are observed *)
   c_cap : nat;
   c_f7 : bool;
+  c_f27 : bool;
   c_expected : list (list N)
 }.
 
@@ -81,7 +82,7 @@ Fixpoint run_steps (c : case) (n : node) (arr : list (N * nat)) : list (list N) 
   | [] => []
   | (l, i) :: arr' =>
       let b := nth i (c_blocks c) dummy_block in
-      let '(n', r) := add_block (apply_tbl (c_apply c)) (c_f7 c) (c_cap c) (set_lib (clear_evs n) l) b in
+      let '(n', r) := add_block (apply_tbl (c_apply c)) (c_f7 c) (c_f27 c) (c_cap c) (set_lib (clear_evs n) l) b in
       observe c n' r :: run_steps c n' arr'
   end.
 
@@ -125,7 +126,7 @@ Fixpoint run_nodes (c : case) (n : node) (arr : list (N * nat)) : node :=
   | [] => n
   | (l, i) :: arr' =>
       let b := nth i (c_blocks c) dummy_block in
-      run_nodes c (fst (add_block (apply_tbl (c_apply c)) (c_f7 c) (c_cap c) (set_lib (clear_evs n) l) b)) arr'
+      run_nodes c (fst (add_block (apply_tbl (c_apply c)) (c_f7 c) (c_f27 c) (c_cap c) (set_lib (clear_evs n) l) b)) arr'
   end.
 Definition case_units (c : case) : list (list N) :=
   map unit_code (rev (jlog (run_nodes c (init_node (c_genesis c)) (c_arrivals c)))).
